@@ -975,7 +975,7 @@ func isinstance(obj py.Object, classOrTuple py.Object) (py.Bool, error) {
 		}
 		return false, nil
 	default:
-		if classOrTuple.Type().ObjectType != py.TypeType {
+		if meta := py.MetaclassOf(classOrTuple); meta != py.TypeType && meta.Flags&py.TPFLAGS_TYPE_SUBCLASS == 0 {
 			return false, py.ExceptionNewf(py.TypeError, "isinstance() arg 2 must be a type or tuple of types")
 		}
 		cls, ok := classOrTuple.(*py.Type)
